@@ -34,7 +34,7 @@ use std::time::{Duration, Instant};
 use serde_json::{json, Value};
 use sozu_command_lib::config::ListenerBuilder;
 use sozu_command_lib::proto::command::{
-    request::RequestType, Cluster, ListenerType, LoadBalancingAlgorithms, UdpAffinityKey, UdpClusterConfig, UpdateUdpListenerConfig,
+    request::RequestType, Cluster, ListenerType, LoadBalancingAlgorithms, RequestUdpFrontend, UdpAffinityKey, UdpClusterConfig, UpdateUdpListenerConfig,
 };
 use verif_harness::rig::*;
 use verif_harness::*;
@@ -302,6 +302,38 @@ struct World {
     to_probe: Vec<(usize, SocketAddr)>,
     /// next unused spare client socket (index into net.socks)
     spare_next: usize,
+    /// the listener routes to the cluster (false after RemoveUdpFrontend / RemoveCluster: the manager's
+    /// cluster is empty and every client datagram is dropped, also on established flows)
+    front_on: bool,
+    /// how the routing was removed (true = RemoveCluster), so that it is restored the same way
+    front_off_by_cluster: bool,
+    /// a backend whose upstream socket cannot be opened (255.255.255.255: connect() fails) is registered
+    bad_on: bool,
+    /// what UpdateUdpListener carries for max_flows / max_rx when it differs from the effective value in
+    /// `k` (0 = auto cap; a max_rx above the worker's buffer_size is clamped to it)
+    sent_cap: Option<u32>,
+    sent_max_rx: Option<u32>,
+    /// the worker's max_connections (clamps the auto cap)
+    maxconn: usize,
+    /// the listener was deactivated and activated again and nothing has been forwarded since
+    silent_since_bounce: bool,
+}
+
+/// the worker's default `buffer_size`: `max_rx_datagram_size` is clamped to it
+const BUFFER_SIZE: usize = 16_393;
+fn bad_backend() -> SocketAddr {
+    SocketAddr::new(IpAddr::V4(Ipv4Addr::BROADCAST), 9)
+}
+
+/// what `max_flows = 0` (auto) means: 70 % of the soft RLIMIT_NOFILE, clamped to max_connections
+fn auto_cap(maxconn: usize) -> usize {
+    let mut lim = libc::rlimit { rlim_cur: 0, rlim_max: 0 };
+    let auto = if unsafe { libc::getrlimit(libc::RLIMIT_NOFILE, &mut lim) } == 0 && lim.rlim_cur > 0 {
+        ((lim.rlim_cur.saturating_mul(7)) / 10).max(1) as usize
+    } else {
+        1024
+    };
+    if maxconn == 0 { auto } else { auto.min(maxconn).max(1) }
 }
 
 const CLUSTER: &str = "udpc";
@@ -323,8 +355,8 @@ fn cluster_msg_of(k: &Knobs, lb: LoadBalancingAlgorithms) -> Cluster {
 
 /// worker + listener + cluster + frontend + the first `backends`: one set-up unit (retried as a whole
 /// with a fresh worker)
-fn bring_up(k: &Knobs, lb: LoadBalancingAlgorithms, backends: &[SocketAddr]) -> RigResult<(Worker, SocketAddr)> {
-    let mut w = Worker::start(WorkerOpts { log_level: "off".into(), ..Default::default() })?;
+fn bring_up(k: &Knobs, lb: LoadBalancingAlgorithms, backends: &[SocketAddr], maxconn: Option<usize>) -> RigResult<(Worker, SocketAddr)> {
+    let mut w = Worker::start(WorkerOpts { log_level: "off".into(), max_connections: maxconn, ..Default::default() })?;
     let r = (|| -> RigResult<SocketAddr> {
         let front = add_listener(&mut w, k)?;
         w.add_cluster(cluster_msg_of(k, lb))?;
@@ -478,12 +510,19 @@ impl World {
             OnFlowOrNew(usize),
             NewOrNothing,
         }
-        let exp = if !valid {
+        let blocked = !self.front_on;
+        let nob = !self.backends_on.iter().any(|b| *b) && !self.bad_on;
+        // a flow admitted while no backend is registered is aborted at once: the model is told so
+        if valid && !blocked && nob && owner.is_none() {
+            self.c.tr("ra".into());
+        }
+        let exp = if !valid || blocked {
             Exp::Nothing
         } else {
             match (owner, ost) {
                 (Some(i), Some(St::Alive)) => Exp::OnFlow(i),
                 (Some(i), Some(St::Maybe)) => Exp::OnFlowOrNew(i),
+                _ if nob => Exp::Nothing,
                 _ => {
                     if live >= self.k.cap {
                         Exp::Nothing
@@ -512,14 +551,26 @@ impl World {
         let mut obs = "none".to_string();
         match (&exp, delivered) {
             (Exp::Nothing, None) => {
-                self.c.tag(if !valid { "invalid-datagram-dropped" } else { "shed-at-cap" });
+                self.c.tag(if !valid {
+                    "invalid-datagram-dropped"
+                } else if blocked {
+                    "dropped-while-routing-removed"
+                } else if nob && owner.is_none() {
+                    "new-flow-aborted-no-backend"
+                } else {
+                    "shed-at-cap"
+                });
             }
-            (Exp::NewOrNothing, None) => {}
+            (Exp::NewOrNothing, None) if !self.bad_on => {}
             (Exp::Nothing, Some(d)) => {
                 let bidx = d.sock - self.net.nclients;
                 let leaked = self.flows.iter().any(|f| f.idle_closed && !f.verified_closed && f.bidx == bidx && f.up == d.from);
                 let class = if !valid {
                     "invalid-datagram-forwarded"
+                } else if blocked {
+                    "forwarded-although-routing-removed"
+                } else if nob && owner.is_none() && live < self.k.cap {
+                    "new-flow-although-no-backend-registered"
                 } else if leaked {
                     // forwarded on the socket of a flow that should have been reaped long ago
                     "idle-flow-not-torn-down"
@@ -528,6 +579,15 @@ impl World {
                 };
                 self.c.fail(class, format!("{} bytes from {} reached backend {} ({} live flows, cap {})", p.len(), client, d.sock - self.net.nclients, live, self.k.cap));
                 self.c.tainted = true;
+            }
+            (Exp::NewFlow, None) | (Exp::NewOrNothing, None) if self.bad_on => {
+                // the load balancer may have picked the backend whose socket cannot be opened: the flow is
+                // established in the manager, the shell fails to connect and aborts it (its cap slot must be
+                // free again: judged by the admissions that follow)
+                self.c.tag("new-flow-aborted-open-failed");
+                let bad = bad_backend();
+                self.c.tr(format!("rr bad {} {}", addr_str(&bad), now_ms));
+                self.c.tr("ra".into());
             }
             (_, None) => {
                 if !retry {
@@ -540,6 +600,7 @@ impl World {
                 } else {
                     let pinned = self.flows.iter().filter(|f| f.idle_closed).count();
                     let class = match exp {
+                        _ if self.silent_since_bounce => "listener-deaf-after-reactivation",
                         Exp::OnFlow(_) => "established-flow-stopped-forwarding",
                         // flows past their idle deadline that sozu never tore down still occupy the cap
                         _ if pinned > 0 && live + pinned >= self.k.cap => "idle-flow-not-torn-down",
@@ -551,6 +612,7 @@ impl World {
                 return;
             }
             (_, Some(d)) => {
+                self.silent_since_bounce = false;
                 let bidx = d.sock - self.net.nclients;
                 let baddr = self.backend_sock(bidx).addr;
                 let on_owner = owner.filter(|&i| self.flows[i].bidx == bidx && self.flows[i].up == d.from);
@@ -742,6 +804,9 @@ impl World {
 
     /// Several datagrams back to back on live flows, then one collection: per-flow order, no dup, no merge.
     fn burst(&mut self, rng: &mut Rng) {
+        if !self.plain() {
+            return;
+        }
         self.drain_unexpected("before burst");
         let t = Instant::now();
         self.sweep(t);
@@ -842,7 +907,13 @@ impl World {
     /// new-flow datagram followed by datagrams of other, established flows within one pass. Every datagram of
     /// an established flow must still travel on that flow's own upstream socket, every new client gets a
     /// socket of its own, per-flow order holds, and afterwards each backend reply reaches only its own client.
+    fn plain(&self) -> bool {
+        self.front_on && !self.bad_on && self.backends_on.iter().any(|b| *b)
+    }
     fn mixed_burst(&mut self, rng: &mut Rng) {
+        if !self.plain() {
+            return;
+        }
         self.drain_unexpected("before mixed burst");
         let t = Instant::now();
         let (live, maybe) = self.sweep(t);
@@ -1016,27 +1087,152 @@ impl World {
             e => self.c.fail("worker-request-failed", format!("{what}: {e:?}")),
         }
     }
+    /// RemoveUdpFrontend / RemoveCluster: the manager's cluster becomes `ClusterConfig::default()`; from now on
+    /// every client datagram is dropped (NoBackend) while replies on established flows are still relayed.
+    /// The same call restores the routing (AddUdpFrontend / AddCluster) when it is currently removed.
+    fn toggle_routing(&mut self, by_cluster: bool) {
+        if self.front_on {
+            let r = if by_cluster {
+                self.w.remove_cluster(CLUSTER)
+            } else {
+                self.w
+                    .request_ok(RequestType::RemoveUdpFrontend(RequestUdpFrontend { cluster_id: CLUSTER.to_string(), address: self.front.into(), ..Default::default() }))
+                    .map(|_| ())
+            };
+            if let Err(e) = r {
+                self.request_failed(if by_cluster { "RemoveCluster" } else { "RemoveUdpFrontend" }, e);
+                return;
+            }
+            self.front_on = false;
+            self.front_off_by_cluster = by_cluster;
+            self.c.log.push(format!("routing removed ({})", if by_cluster { "RemoveCluster" } else { "RemoveUdpFrontend" }));
+            self.c.tag("routing-removed");
+            self.c.tr("cfg - 0 0 0 30000 30000 0 0".into());
+        } else {
+            let r = if self.front_off_by_cluster { self.w.add_cluster(self.cluster_msg()) } else { self.w.add_udp_frontend(self.front, CLUSTER) };
+            if let Err(e) = r {
+                self.request_failed("restore routing", e);
+                return;
+            }
+            self.front_on = true;
+            self.c.log.push("routing restored".into());
+            self.c.tag("routing-restored");
+            let w = self.cfg_words();
+            self.c.tr(format!("cfg {w}"));
+        }
+    }
+    /// register / remove the backend whose upstream socket cannot be opened
+    fn toggle_bad_backend(&mut self) {
+        let bad = bad_backend();
+        let r = if self.bad_on { self.w.remove_backend(CLUSTER, "bad", bad) } else { self.w.add_backend(CLUSTER, "bad", bad) };
+        if let Err(e) = r {
+            self.request_failed("bad backend", e);
+            return;
+        }
+        self.bad_on = !self.bad_on;
+        self.c.log.push(format!("unconnectable backend {}", if self.bad_on { "added" } else { "removed" }));
+        self.c.tag("unconnectable-backend-toggled");
+    }
+    /// every flow the monitor still holds is torn down by sozu now: its upstream socket must be closed
+    fn all_flows_torn_down(&mut self, what: &str) {
+        let mut n = 0;
+        for i in 0..self.flows.len() {
+            if !self.flows[i].closed {
+                self.flows[i].closed = true;
+                self.to_probe.push((self.flows[i].inc, self.flows[i].up));
+                n += 1;
+            }
+        }
+        self.c.log.push(format!("{what}: {n} flow(s) must be torn down"));
+        self.c.tr("closeall".into());
+        self.c.tr("shellreset".into());
+        self.probe_closed_sockets();
+    }
+    /// a datagram sent to the listener address while nothing listens there (or routes) must reach no backend
+    fn expect_silence(&mut self, class: &str) {
+        self.seq += 1;
+        let p = make_payload(0, self.seq, 24);
+        let _ = self.net.socks[0].s.send_to(&p, self.front);
+        for d in self.net.pump(usize::MAX, QUIET) {
+            if d.sock >= self.net.nclients && d.data.ends_with(&p) {
+                self.c.fail(class, format!("{} bytes reached backend {} via {}", d.data.len(), d.sock - self.net.nclients, d.from));
+            } else {
+                self.unexpected(&d, class);
+            }
+        }
+    }
+    /// DeactivateListener then ActivateListener: mass teardown through the retained manager, then service
+    /// resumes with an empty flow table (cap counted from zero, new upstream sockets, PROXY header anew)
+    fn bounce_listener(&mut self, probe: bool) {
+        self.drain_unexpected("before deactivate");
+        if let Err(e) = self.w.deactivate(self.front, ListenerType::Udp) {
+            self.request_failed("DeactivateListener", e);
+            return;
+        }
+        self.c.tag("listener-deactivated");
+        self.all_flows_torn_down("DeactivateListener");
+        if probe {
+            self.expect_silence("forwarded-while-listener-deactivated");
+        }
+        // the address is ours alone (explicit per-process port): a failing re-bind is the subject's doing
+        // unless the machine is out of ports
+        let mut r = self.w.activate(self.front, ListenerType::Udp);
+        for attempt in 0..3u32 {
+            if r.is_ok() {
+                break;
+            }
+            std::thread::sleep(Duration::from_millis(40 << attempt));
+            r = self.w.activate(self.front, ListenerType::Udp);
+        }
+        if let Err(e) = r {
+            self.c.give_up("re-activate listener", format!("{e:?}"));
+        }
+        self.c.tag("listener-reactivated");
+        self.silent_since_bounce = true;
+    }
     fn push_cluster(&mut self) {
         let msg = self.cluster_msg();
         if let Err(e) = self.w.add_cluster(msg) {
             self.request_failed("AddCluster", e);
         }
+        if !self.front_on {
+            if self.front_off_by_cluster {
+                // AddCluster is what restores a routing removed by RemoveCluster
+                self.front_on = true;
+                self.c.tag("routing-restored");
+            } else {
+                // no frontend: the knobs are only cached for a later AddUdpFrontend, the manager is untouched
+                return;
+            }
+        }
         let w = self.cfg_words();
         self.c.tr(format!("cfg {w}"));
     }
+    /// the ClusterConfig an UpdateUdpListener rebuilds: without a frontend the cluster stays empty
+    fn cfg_words_now(&self) -> String {
+        if self.front_on {
+            self.cfg_words()
+        } else {
+            format!("- 0 0 0 {} {} 0 0", self.k.fto * 1000, self.k.bto * 1000)
+        }
+    }
     fn push_listener(&mut self) {
+        if !self.front_on && self.front_off_by_cluster {
+            // (an UpdateUdpListener after RemoveCluster is deliberately not exercised: see the report)
+            self.toggle_routing(true);
+        }
         let patch = UpdateUdpListenerConfig {
             address: self.front.into(),
             public_address: None,
             front_timeout: Some(self.k.fto as u32),
             back_timeout: Some(self.k.bto as u32),
-            max_rx_datagram_size: Some(self.k.max_rx as u32),
-            max_flows: Some(self.k.cap as u32),
+            max_rx_datagram_size: Some(self.sent_max_rx.unwrap_or(self.k.max_rx as u32)),
+            max_flows: Some(self.sent_cap.unwrap_or(self.k.cap as u32)),
         };
         if let Err(e) = self.w.request_ok(RequestType::UpdateUdpListener(patch)) {
             self.request_failed("UpdateUdpListener", e);
         }
-        let w = self.cfg_words();
+        let w = self.cfg_words_now();
         self.c.tr(format!("cfg {w}"));
         self.c.tr(format!("maxflows {}", self.k.cap));
         self.c.tr(format!("maxrx {}", self.k.max_rx));
@@ -1137,9 +1333,11 @@ fn run_case(seed: u64, case: u64, thorough: bool, driver: &str) -> (Case, Value)
         }
     }
     let baddrs: Vec<SocketAddr> = socks[nclients..nclients + nb].iter().map(|s| s.addr).collect();
+    // a small max_connections makes the auto flow cap (max_flows = 0) reachable on the wire
+    let maxconn: Option<usize> = if shape == 2 || rng.chance(1, 4) { Some(rng.range(3, 7) as usize) } else { None };
     // self-test of the inconclusive paths: UDPFLOW_FAULT=setup:<case>[,panic:<case>,...]
     let fault = |kind: &str| std::env::var("UDPFLOW_FAULT").map(|v| v.split(',').any(|x| x == format!("{kind}:{case}") || x == format!("{kind}:all"))).unwrap_or(false);
-    let (w, front) = match retry(|| if fault("setup") { Err(RigError::Setup("injected set-up fault".into())) } else { bring_up(&k, lb, &baddrs) }) {
+    let (w, front) = match retry(|| if fault("setup") { Err(RigError::Setup("injected set-up fault".into())) } else { bring_up(&k, lb, &baddrs, maxconn) }) {
         Ok(x) => x,
         Err(e) => {
             c.give_up("worker set-up", e);
@@ -1162,6 +1360,13 @@ fn run_case(seed: u64, case: u64, thorough: bool, driver: &str) -> (Case, Value)
         c,
         to_probe: vec![],
         spare_next: nmain,
+        front_on: true,
+        front_off_by_cluster: false,
+        bad_on: false,
+        sent_cap: None,
+        sent_max_rx: None,
+        maxconn: maxconn.unwrap_or(10_000),
+        silent_since_bounce: false,
     };
     let first = format!("new {} {} {}", world.k.cap, world.k.max_rx, world.cfg_words());
     world.c.tr(first);
@@ -1176,6 +1381,21 @@ fn run_case(seed: u64, case: u64, thorough: bool, driver: &str) -> (Case, Value)
         }
         if world.c.tainted || world.c.fails.len() >= 3 {
             break;
+        }
+        // the unusual configurations last a few steps only
+        if !world.front_on && rng.chance(1, 3) {
+            let by = world.front_off_by_cluster;
+            world.toggle_routing(by);
+        }
+        if world.bad_on && rng.chance(1, 3) {
+            world.toggle_bad_backend();
+        }
+        if !world.backends_on.iter().any(|b| *b) && rng.chance(1, 3) {
+            let a = world.backend_sock(0).addr;
+            if world.w.add_backend(CLUSTER, "b0", a).is_ok() {
+                world.backends_on[0] = true;
+                world.c.log.push("add backend 0".into());
+            }
         }
         let r = rng.below(100);
         let live: Vec<usize> = (0..world.flows.len()).filter(|&i| !world.flows[i].closed).collect();
@@ -1224,7 +1444,23 @@ fn run_case(seed: u64, case: u64, thorough: bool, driver: &str) -> (Case, Value)
             }
         } else {
             // runtime reconfiguration
-            match rng.below(7) {
+            match rng.below(11) {
+                7 => world.toggle_routing(false),
+                8 => world.toggle_routing(true),
+                9 => world.toggle_bad_backend(),
+                10 => {
+                    // remove every backend: new flows are admitted, find no backend and are aborted at once
+                    for b in 0..world.backends_on.len() {
+                        if world.backends_on[b] {
+                            let a = world.backend_sock(b).addr;
+                            if world.w.remove_backend(CLUSTER, &format!("b{b}"), a).is_ok() {
+                                world.backends_on[b] = false;
+                            }
+                        }
+                    }
+                    world.c.log.push("all backends removed".into());
+                    world.c.tag("all-backends-removed");
+                }
                 0 => {
                     // remove a backend (keep at least one)
                     let on: Vec<usize> = (0..world.backends_on.len()).filter(|&b| world.backends_on[b]).collect();
@@ -1263,8 +1499,16 @@ fn run_case(seed: u64, case: u64, thorough: bool, driver: &str) -> (Case, Value)
                 }
                 4 => {
                     let (live_now, maybe) = world.sweep(Instant::now());
-                    world.k.cap = if live_now + maybe > 0 && rng.chance(1, 2) { (live_now + maybe).saturating_sub(1).max(1) } else { rng.range(1, 6) as usize };
-                    world.c.log.push(format!("max_flows := {} ({} live)", world.k.cap, live_now));
+                    if rng.chance(2, 5) {
+                        // 0 = auto: 70 % of RLIMIT_NOFILE clamped to max_connections, never "no flow at all"
+                        world.sent_cap = Some(0);
+                        world.k.cap = auto_cap(world.maxconn);
+                        world.c.tag("cap-auto");
+                    } else {
+                        world.sent_cap = None;
+                        world.k.cap = if live_now + maybe > 0 && rng.chance(1, 2) { (live_now + maybe).saturating_sub(1).max(1) } else { rng.range(1, 6) as usize };
+                    }
+                    world.c.log.push(format!("max_flows := {} (sent {:?}, {} live)", world.k.cap, world.sent_cap, live_now));
                     world.c.tag("cap-changed");
                     world.push_listener();
                 }
@@ -1275,8 +1519,16 @@ fn run_case(seed: u64, case: u64, thorough: bool, driver: &str) -> (Case, Value)
                     world.push_listener();
                 }
                 _ => {
-                    world.k.max_rx = *rng.pick(&[64usize, 512, 1500]);
-                    world.c.log.push(format!("max_rx := {}", world.k.max_rx));
+                    if rng.chance(1, 4) {
+                        // above the worker's buffer_size: clamped, a larger datagram is dropped, never cut
+                        world.sent_max_rx = Some(60_000);
+                        world.k.max_rx = BUFFER_SIZE;
+                        world.c.tag("max-rx-clamped");
+                    } else {
+                        world.sent_max_rx = None;
+                        world.k.max_rx = *rng.pick(&[64usize, 512, 1500]);
+                    }
+                    world.c.log.push(format!("max_rx := {} (sent {:?})", world.k.max_rx, world.sent_max_rx));
                     world.push_listener();
                 }
             }
@@ -1299,6 +1551,49 @@ fn run_case(seed: u64, case: u64, thorough: bool, driver: &str) -> (Case, Value)
     match health {
         Health::Alive(_) => {}
         h => world.c.fail("worker-not-alive-after-case", format!("{h:?}")),
+    }
+    // how the listener's life ends: plain stop (HardStop), RemoveListener, or SoftStop — each must tear every
+    // flow down through the manager and release its upstream socket
+    let ending = rng.below(6);
+    if world.c.fails.is_empty() && !world.c.tainted && world.c.inconclusive.is_none() {
+        if ending == 0 {
+            match world.w.remove_listener(world.front, ListenerType::Udp) {
+                Ok(()) => {
+                    world.c.tag("listener-removed");
+                    world.all_flows_torn_down("RemoveListener");
+                    world.expect_silence("forwarded-after-listener-removed");
+                    if !world.w.alive().is_alive() {
+                        world.c.fail("worker-not-alive-after-case", "after RemoveListener".into());
+                    }
+                }
+                Err(e) => world.request_failed("RemoveListener", e),
+            }
+        } else if ending == 2 && world.plain() {
+            // DeactivateListener + ActivateListener, then service must resume from an empty flow table
+            world.bounce_listener(true);
+            for _ in 0..2 {
+                if world.c.tainted || !world.c.fails.is_empty() {
+                    break;
+                }
+                let ci = rng.below(nmain as u64) as usize;
+                let len = rng.range(6, world.k.max_rx.min(1200) as u64) as usize;
+                world.send(ci, len, false);
+            }
+            world.probe_closed_sockets();
+        } else if ending == 1 {
+            let t = Instant::now();
+            let live = world.sweep(t).0;
+            world.c.tag("soft-stop");
+            match world.w.soft_stop(Duration::from_secs(5)) {
+                Ok(_) => match world.w.exit_state() {
+                    Some(None) => {}
+                    Some(Some(msg)) => world.c.fail("worker-panicked-on-soft-stop", msg),
+                    // flows are torn down at once on soft stop: the worker must not wait out idle timeouts
+                    None => world.c.fail("soft-stop-did-not-finish", format!("worker still running 5 s after SoftStop ({live} live flows)")),
+                },
+                Err(e) => world.request_failed("SoftStop", e),
+            }
+        }
     }
     world.w.stop();
 
@@ -1380,7 +1675,7 @@ fn probe_idle(n: u64) {
                 continue;
             }
         };
-        let (mut w, front) = match retry(|| bring_up(&pk, LoadBalancingAlgorithms::RoundRobin, &[b.addr])) {
+        let (mut w, front) = match retry(|| bring_up(&pk, LoadBalancingAlgorithms::RoundRobin, &[b.addr], None)) {
             Ok(x) => x,
             Err(e) => {
                 println!("probe {i}: inconclusive (worker set-up: {e})");
